@@ -756,16 +756,39 @@ def tie_c(e):
         return f'({tie_c(e[2])} {CBIN[e[1]]} {tie_c(e[3])})'
     if k == 'CAST':
         return f'(({CNAME[e[1]]}){tie_c(e[2])})'
+    if k == 'SEQ':
+        return f'({tie_c(e[1])}, {tie_c(e[2])})'
+    if k == 'SET':
+        return f'(v{e[1]} = {tie_c(e[2])})'
+    if k == 'OPSET':
+        return f'(v{e[2]} {CBIN[e[1]]}= {tie_c(e[3])})'
+    if k in ('PREINC', 'PREDEC', 'POSTINC', 'POSTDEC'):
+        return rc(e, [])
     raise ValueError(e)
 
-def gen_tie(rng, depth, n):
+def gen_tie(rng, depth, tys, effects):
+    """pure nests (effects=False) or nests with `,` `=` `op=` `++` `--` on variables anywhere (the text is never run, so
+    conflicting accesses are allowed here; the no-conflict side condition of the theorem is reported by the driver)"""
+    n = len(tys)
     if depth == 0 or rng.random() < 0.1:
+        if effects and rng.random() < 0.25:
+            k = rng.choice(['PREINC', 'PREDEC', 'POSTINC', 'POSTDEC'])
+            cand = [i for i in range(n) if tys[i] != 'bool' or k.startswith('PRE')]
+            if cand:
+                return (k, rng.choice(cand))
         return ('V', rng.randrange(n)) if rng.random() < 0.7 else tie_lit(rng)
     x = rng.random()
-    sub = lambda: gen_tie(rng, depth - 1, n)
-    if x < 0.6:
+    sub = lambda: gen_tie(rng, depth - 1, tys, effects)
+    if effects and x < 0.34:
+        y = rng.random()
+        if y < 0.2:
+            return ('SEQ', sub(), sub())
+        if y < 0.55:
+            return ('SET', rng.randrange(n), sub())
+        return ('OPSET', rng.choice(COMPOUND), rng.randrange(n), sub())
+    if x < 0.66:
         return ('B', rng.choice(BINOPS), sub(), sub())
-    if x < 0.8:
+    if x < 0.84:
         return ('U', rng.choice(UNOPS), sub())
     return ('CAST', rng.choice(TYS), sub())
 
@@ -789,24 +812,40 @@ def push_depth(ins):
     return m
 
 def check_compile(ctx, corr, N):
-    """Model/C01Expr `compileE` (the object of theorem C01_value) against gen_expr: `R f(T0 v0, ..) { return EXPR; }` for
-    generated pure expression nests; the instructions between the prologue and `jmp .L.return.f` must be exactly the ones
-    `drv_c01 compile` prints for `(R)EXPR`, and the deepest push nesting must equal `depthE`."""
+    """Model/C01Expr `compileE` / `compileX` (the objects of theorems C01_value / C01_value_effects) against gen_expr and the
+    parse.c rewritings: `R f(T0 v0, ..) { return EXPR; }` for generated expression nests - pure ones, and ones with `,` `=`
+    `op=` `++` `--` on variables; the instructions between the prologue and `jmp .L.return.f` must be exactly the ones
+    `drv_c01 compilex` prints for `(R)EXPR` (hidden temporaries of op= / ++ / --: the frame slots that are not parameters, in
+    order of creation = ascending offset), a pure nest must get the same code from `compileE`, and the deepest push nesting
+    must equal `depthX`."""
     rng = ctx.rng
     cases, src = [], ''
     fixed = [(['i8', 'u32', 'bool'], 'i64', ('B', 'gt', ('B', 'add', ('V', 0), ('B', 'mul', ('V', 1), ('L', 'i32', 2))),
-                                             ('B', 'sub', ('U', 'neg', ('CAST', 'i64', ('L', 'i32', 5))), ('V', 0))))]
+                                             ('B', 'sub', ('U', 'neg', ('CAST', 'i64', ('L', 'i32', 5))), ('V', 0)))),
+             (['i16', 'i64'], 'i64', ('OPSET', 'shl', 0, ('OPSET', 'sub', 1, ('L', 'i32', 3)))),
+             (['i8', 'u32', 'bool'], 'i64', ('SEQ', ('SET', 0, ('V', 1)), ('SEQ', ('OPSET', 'add', 1, ('V', 0)),
+                                             ('SEQ', ('PREINC', 2), ('SEQ', ('POSTDEC', 0), ('PREINC', 1))))))]
     for op in BINOPS:          # every operator once more with a nested operand on each side, operands of unequal types
         fixed.append((['u8', 'i64', 'i16'], 'i32', ('B', op, ('B', 'add', ('V', 0), ('V', 2)), ('B', 'bxor', ('V', 1), ('V', 2)))))
         fixed.append((['u32', 'i32', 'bool'], 'u64', ('B', op, ('V', 2), ('B', op, ('V', 0), ('V', 1)))))
-    for k in range(N):
+        fixed.append((['u32', 'i8', 'u64'], 'i16', ('B', op, ('SET', 0, ('V', 1)), ('POSTINC', 2))))
+    for op in COMPOUND:        # every op= on every variable type, operand of every type; ++/-- on every type
+        for t in TYS:
+            fixed.append(([t, TYS[(TYS.index(t) * 4 + len(op)) % 9]], 'i64', ('OPSET', op, 0, ('V', 1))))
+    for t in TYS:
+        for k in ('PREINC', 'PREDEC', 'POSTINC', 'POSTDEC'):
+            if t != 'bool' or k.startswith('PRE'):
+                fixed.append(([t], 'i64', (k, 0)))
+        for t2 in TYS:
+            fixed.append(([t, t2], 'i32', ('SET', 0, ('V', 1))))
+    for k in range(max(N, len(fixed))):
         if k < len(fixed):
             tys, ret, e = fixed[k]
         else:
             n = rng.randrange(1, 7)
             tys = [rng.choice(TYS) for _ in range(n)]
             ret = rng.choice(TYS)
-            e = gen_tie(rng, rng.randrange(1, 6), n)
+            e = gen_tie(rng, rng.randrange(1, 6), tys, effects=(k % 2 == 1))
         name = f'c{k}'
         params = ', '.join(f'{CNAME[t]} v{i}' for i, t in enumerate(tys))
         src += f'{CNAME[ret]} {name}({params}) {{ return {tie_c(e)}; }}\n'
@@ -815,7 +854,7 @@ def check_compile(ctx, corr, N):
     open(path, 'w').write(src)
     rc_, asm, err = sh([ctx.cc, '-S', '-o', '-', path], timeout=300)
     if rc_ != 0:
-        corr.violations.append({'what': 'chibicc -S fails on functions returning a pure integer expression', 'input': src[:600],
+        corr.violations.append({'what': 'chibicc -S fails on functions returning an integer expression', 'input': src[:600],
                                 'expected': 'compiles', 'got': err[-300:]})
         return
     req, live = '', []
@@ -831,31 +870,41 @@ def check_compile(ctx, corr, N):
                 corr.disagreements.append({'kind': 'asm-text', 'spec': name, 'note': 'prologue of unknown shape: ' + l})
                 return
             offs.append(mm.group(1))
-        req += f"{','.join(tys)} {','.join(offs)} | CAST {ret} {rp(e)}\n"
-        live.append((name, tys, ret, e, body_instrs(lines[4 + len(tys):])))
-    model = ctx.driver('compile', req).splitlines()
+        body = body_instrs(lines[4 + len(tys):])
+        temps = sorted({int(x) for i in body for x in re.findall(r'(-?\d+)\(%rbp\)', i)} - {int(o) for o in offs})
+        req += f"{','.join(tys)} {','.join(offs)} {','.join(str(x) for x in temps) or '-'} | CAST {ret} {rp(e)}\n"
+        live.append((name, tys, ret, e, body, len(temps)))
+    model = ctx.driver('compilex', req).splitlines()
     if len(model) != len(live):
-        corr.disagreements.append({'kind': 'driver', 'note': f'drv_c01 compile answered {len(model)} lines for {len(live)} expressions'})
+        corr.disagreements.append({'kind': 'driver', 'note': f'drv_c01 compilex answered {len(model)} lines for {len(live)} expressions'})
         return
-    for (name, tys, ret, e, got), m in zip(live, model):
-        corr.count('compile-tie')
+    for (name, tys, ret, e, got, ntemps), m in zip(live, model):
         corr.evaluations += 1
         ctext = [l for l in src.splitlines() if f' {name}(' in l][0]
-        w = m.split(' ', 3)
-        if w[0] != 'ok' or len(w) < 4:
-            corr.disagreements.append({'kind': 'asm-text', 'c': ctext, 'note': 'compileE does not handle a pure expression: ' + m[:80]})
+        w = m.split(' ', 6)
+        if w[0] != 'ok' or len(w) < 7:
+            corr.disagreements.append({'kind': 'asm-text', 'c': ctext, 'note': 'compileX does not handle the expression: ' + m[:80]})
             return
-        want = [] if w[3] == 'empty' else w[3].split(';;')
+        is_pure = all(x[0] in ('L', 'V', 'U', 'B', 'CAST') for x in subexprs(e))
+        corr.count('compile-tie:' + ('pure' if is_pure else 'effects, no conflict' if w[4] == '1' else 'effects, conflicting accesses'))
+        want = [] if w[6] == 'empty' else w[6].split(';;')
         if len(got) > 12:
             corr.nontrivial.add('tie:' + hashlib.sha1(ctext.encode()).hexdigest())
+        bad = None
         if got != want:
             j = next((i for i in range(min(len(got), len(want))) if got[i] != want[i]), min(len(got), len(want)))
-            corr.disagreements.append({'kind': 'asm-text', 'c': ctext, 'first_difference_at': j, 'chibicc': got[j:j + 4],
-                                       'model': want[j:j + 4], 'test': {'ctx': 'ret', 'T': ret, 'tys': tys, 'vals': [1] * len(tys), 'prefix': rp(e)},
-                                       'note': 'Model/C01Expr compileE (the object of C01_value) does not print what chibicc -S prints'})
-            return
-        if push_depth(got) != int(w[2]):
-            corr.disagreements.append({'kind': 'asm-text', 'c': ctext, 'note': f'stack slots: chibicc nests push {push_depth(got)} deep, depthE = {w[2]}'})
+            bad = {'first_difference_at': j, 'chibicc': got[j:j + 4], 'model': want[j:j + 4],
+                   'note': 'Model/C01Expr compileX (the object of C01_value / C01_value_effects) does not print what chibicc -S prints'}
+        elif push_depth(got) != int(w[2]):
+            bad = {'note': f'stack slots: chibicc nests push {push_depth(got)} deep, depthX = {w[2]}'}
+        elif ntemps != int(w[3]):
+            bad = {'note': f'hidden temporaries: chibicc uses {ntemps} frame slots besides the parameters, the model {w[3]}'}
+        elif is_pure != (w[5] == '1'):
+            bad = {'note': 'compileE and compileX disagree on a pure expression' if is_pure else 'compileE accepts an expression with side effects'}
+        if bad:
+            bad.update({'kind': 'asm-text', 'c': ctext,
+                        'test': {'ctx': 'ret', 'T': ret, 'tys': tys, 'vals': [1] * len(tys), 'prefix': rp(e)}})
+            corr.disagreements.append(bad)
             return
     corr.extra['expression_trees_compared_with_chibicc_S'] = len(live)
 
